@@ -541,6 +541,7 @@ OPERATORS: dict[type, Callable[..., Any]] = {
     ast.Mod: op.mod,
     ast.Pow: op.pow,
     ast.USub: op.neg,
+    ast.UAdd: op.pos,
 }
 
 
